@@ -19,7 +19,7 @@ from ..engine import MachineryError
 
 
 def generate(chk, thorough):
-    chk.tlc("laws", "MC_Pint", "MC_Pint.cfg" if thorough else "MC_Pint_q.cfg", timeout=1800)
+    chk.tlc("laws", "MC_Pint", "MC_Pint.cfg" if thorough else "MC_Pint_q.cfg", timeout=3600)
     wd = chk.workdir("gen")
     dump = os.path.join(wd, "pint.dump")
     g = chk.tlc("gen", "MC_Pint", "MC_Pint_gen.cfg", wd=wd, args=["-dump", dump], count=False)
